@@ -52,8 +52,11 @@ func (s *RPCServer) Range(ctx context.Context, r *etcdserverpb.RangeRequest) (*e
 		methodTag = metrics.Tag("method", "get")
 	} else {
 		// tricky code
-		// when range end is not nil and revision is GetPartitionMagic, we tell it is a request for partition infos
-		if r.Revision == GetPartitionMagic {
+		// when range end is not nil and revision is GetPartitionMagic, we tell it is a request for partition infos.
+		// That request carries neither a limit nor count_only; a page of a paginated list or a count at an
+		// explicit revision that happens to be GetPartitionMagic (an ordinary revision on engines whose revisions
+		// count commits) is an ordinary read
+		if r.Revision == GetPartitionMagic && r.Limit == 0 && !r.CountOnly {
 			methodTag = metrics.Tag("method", "list-partition")
 			response, err = s.backend.GetPartitions(ctx, r)
 		} else if r.CountOnly {
